@@ -26,7 +26,7 @@ BATCH = 60
 
 
 def gen(rng, tier):
-    n = 90 if tier == 'quick' else 3000
+    n = G.budget(90) if tier == 'quick' else 3000
     for _ in range(n):
         k = rng.randint(2, 8 if tier == 'thorough' else 6)
         labs, akind = G.alphabet(rng, k=k)
